@@ -6,7 +6,7 @@ from vlib.core import Case
 
 ID = "C09"
 COMPONENTS = ["s_mdwire", "mdcodec", "s_rawpeer"]
-T4 = ["MdWire"]
+T4 = ["MdWire", "Timeout"]
 PROOF_MODULES = ["GrpcProofs.Properties.C09"]
 THEOREMS = ["GrpcProofs.C09." + t for t in (
     "md_roundtrip_partial", "per_key_order", "transport_added_keys", "md_roundtrip_counterexample_host",
@@ -14,7 +14,7 @@ THEOREMS = ["GrpcProofs.C09." + t for t in (
     "reserved_never_sent_client", "reserved_never_sent_server", "reserved_never_surfaced_server_partial",
     "reserved_never_surfaced_header_partial", "reserved_never_surfaced_trailer_partial",
     "content_type_surfaced_counterexample_server", "content_type_surfaced_counterexample_client",
-    "header_roundtrip", "trailer_roundtrip", "valid_md_wire_ok", "bin_value_roundtrip", "bin_value_padded_peer",
+    "header_roundtrip", "trailer_roundtrip", "header_calls_roundtrip", "trailer_calls_roundtrip", "join_per_key", "valid_md_wire_ok", "bin_value_roundtrip", "bin_value_padded_peer",
     "append_lowercases", "reserved_table", "server_switch_names")]
 DESIGN_REF = "DESIGN.md section 8, C09"
 TECHNIQUE = ("Lean 4 theorems about a model of newClientStream validation -> createHeaderFields -> server operateHeaders -> handler metadata "
@@ -23,7 +23,8 @@ TECHNIQUE = ("Lean 4 theorems about a model of newClientStream validation -> cre
              "+ T1 on the codec/validation functions + T4 regenerated header tables")
 LEVEL_TEXT = ("Machine-checked Lean proofs about a model of the metadata path: for every valid outgoing MD + appended pairs (no host/connection key) the "
               "handler's metadata has, for EVERY key, the transport's values followed by the user's in the order given; for every header/trailer MD the "
-              "client's Header()/Trailer() has exactly the server's values per key; reserved names are never produced from user metadata (any MD) and, for "
+              "client's Header()/Trailer() has exactly the server's values per key — also for handlers making several SetHeader/SendHeader/SetTrailer calls "
+              "(values of the calls that succeeded, in call order, metadata.Join semantics; the handler's own MD values are only read); reserved names are never produced from user metadata (any MD) and, for "
               "ANY field list a peer may send, never surface except :authority, user-agent and (finding F17, proved to be a counterexample) content-type; "
               "invalid outgoing metadata yields no fields at all; binary values of any bytes round-trip, padded or raw; validated metadata is always "
               "acceptable to the peer's HTTP/2 framer. The model is diffed against real RPCs over bufconn and against the codec/validation functions on every run.")
@@ -47,7 +48,10 @@ RULE = ("s_mdwire: one real RPC per op (unary, stream trailers-only, stream with
         "every key of the pools (23 valid incl. -bin and grpc-* names, 15 reserved/pseudo, 14 invalid, 9 mixed-case) alone in each position, every listed "
         "value (printable, empty, control bytes, non-ASCII) in each position, binary values of length 0..7; random part: cases of 20 RPCs with 0-4 keys x 0-3 "
         "values per MD, invalid/reserved/special keys mixed in. RPCs that hit a listed known finding (host, connection) travel in single-op cases; F17 is "
-        "judged on three dedicated `probe` ops, F30 on two `probeae` ops. mdcodec: isReservedHeader/isWhitelistedHeader on all 1- and 2-byte names and the pools, Validate on every "
+        "judged on three dedicated `probe` ops, F30 on two `probeae` ops. Multi-call family (`pool`/`rpcm`): the component keeps long-lived metadata.MD "
+        "objects; each RPC's handler makes 0-4 header calls (SetHeader/SendHeader, both APIs) and 0-3 SetTrailer calls whose argument is either one of those "
+        "objects (the same Go map in every RPC of the case) or a fresh literal; systematically every pair/triple pattern over {object, literal} x 4 API/path "
+        "combinations repeated in 3 RPCs of one connection, then random cases of 3-7 RPCs over 1-3 objects; the harness also prints the objects after every RPC. mdcodec: isReservedHeader/isWhitelistedHeader on all 1- and 2-byte names and the pools, Validate on every "
         "byte in key and value positions and random MDs, encode/decodeMetadataHeader on valid (raw and padded) and mutated base64, AppendToOutgoingContext "
         "lower-casing on all ASCII bytes. A case is non-trivial when at least one handler ran. s_rawpeer: the real server against a scripted raw HTTP/2 client and the real client against a scripted raw HTTP/2 server: request/response header fields grpc-go never writes itself (padded/raw/invalid base64, reserved names, duplicate and missing pseudo-headers, host with and without :authority, connection, content-type and :method variants, grpc-timeout good and malformed, names/values the framer rejects), every listed extra field alone in each position plus random combinations.")
 
@@ -235,6 +239,7 @@ def gen(rng, tier):
             md, added, o = rand_op(rng, special=rng.random() < 0.04)
             (singles if hits_special(md, added) else ops).append(o)
         yield Case("s_mdwire", ops, "random-%d" % kcase)
+    yield from gen_multi(rng, tier)
     for o in singles[:{"quick": 40, "thorough": 400, "search": 200}[tier]]:
         yield Case("s_mdwire", [o], "special-keys")
     # F17 probes (last, so that a new violation is reported on an ordinary rpc op first): the content-type clause of the monitor is on for these (one op per case)
@@ -321,6 +326,59 @@ def gen_peer(rng, tier):
 
 
 B64 = b"ABCDEFGHIJKLMNOPQRSTUVWXYZabcdefghijklmnopqrstuvwxyz0123456789+/"
+
+
+def gen_multi(rng, tier):
+    """Handlers that make SEVERAL header / trailer calls per RPC, partly with long-lived metadata objects they keep
+    (package-level constant headers, an MD cached per service, ...) and reuse in later RPCs of the same connection:
+    calls accumulate like metadata.Join and the server must neither keep nor modify the handler's MD values."""
+    n_cases = {"quick": 45, "thorough": 1500, "search": 600}[tier]
+    hkeys = [b"x-server-name", b"x-request-no", b"h", b"h2", b"h-bin", b"grpc-status", b"content-type"]
+
+    def small_md():
+        md = []
+        used = set()
+        for _ in range(rng.choice([0, 1, 1, 2, 3])):
+            k = rng.choice(hkeys) if rng.random() < 0.97 else rng.choice(INVALID_KEYS[1:])
+            if k in used:
+                continue
+            used.add(k)
+            md.append((k, [rand_val(rng, k, False) for _ in range(rng.choice([0, 1, 1, 2]))]))
+        return md
+
+    def calls(apis, npool, lo, hi):
+        cs = []
+        for _ in range(rng.randrange(lo, hi + 1)):
+            ref = "p%d" % rng.randrange(npool) if rng.random() < 0.55 else "l" + show_md(small_md())
+            cs.append(rng.choice(apis) + "@" + ref)
+        return "|".join(cs) or "-"
+
+    # systematic: every pair / triple of Set calls over {pool object, fresh literal}, repeated in 3 RPCs of one connection
+    sysops = []
+    common = [(b"x-server-name", [b"alpha"])]
+    for path, api in (("u", "ctx.set"), ("b1", "ss.set"), ("b0", "ctx.set"), ("b1", "ctx.set")):
+        for pattern in (["p0", "l"], ["l", "p0"], ["p0", "p1"], ["p0", "p0"], ["p0", "l", "l"], ["l", "l"], ["p0", "l", "p1"]):
+            ops = ["pool 0 " + show_md(common), "pool 1 " + show_md([(b"h", [b"1", b"2"]), (b"x-request-no", [b"0"])])]
+            for n in (1, 2, 3):
+                lit = "l" + show_md([(b"x-request-no", [b"%d" % n])])
+                hc = "|".join(api + "@" + (lit if r == "l" else r) for r in pattern)
+                tc = "|".join(("ctx.set" if api.startswith("ctx") else "ss.set") + "@" + (lit if r == "l" else r) for r in pattern)
+                ops.append("rpcm %s %s %s %d" % (path, hc, tc if n != 2 else "-", 0 if n != 3 else 5))
+            sysops.append(ops)
+    for i, ops in enumerate(sysops):
+        yield Case("s_mdwire", ops, "multi-systematic-%d" % i)
+    for kcase in range(n_cases):
+        npool = rng.randrange(1, 4)
+        ops = ["pool %d %s" % (i, show_md(small_md())) for i in range(npool)]
+        for _ in range(rng.randrange(3, 8)):
+            path = rng.choice(["u", "b0", "b1"])
+            hapis = ["ctx.set", "ctx.set", "ctx.send"] + (["ss.set", "ss.set", "ss.send"] if path != "u" else [])
+            tapis = ["ctx.set"] + (["ss.set"] if path != "u" else [])
+            ops.append("rpcm %s %s %s %d" % (path, calls(hapis, npool, 0, 4), calls(tapis, npool, 0, 3), rng.choice([0, 0, 5, 16])))
+            if rng.random() < 0.1:
+                i = rng.randrange(npool)
+                ops.append("pool %d %s" % (i, show_md(small_md())))
+        yield Case("s_mdwire", ops, "multi-%d" % kcase)
 
 
 def gen_fn(rng, tier):
